@@ -494,6 +494,24 @@ def file_accessor_part(R, nseq):
             reads.append(["fc", op[1], op[2]] if key[0] else ["ff", op[1]])
             if not key[0]:
                 reads.append(["ex", op[1]])
+        # names that are proper path prefixes of stored names (the scale key, the per-axis directories of
+        # the deep layout, the parent of a nested file name): directories on disk, not stored names
+        pref = []
+        for op in ops:
+            comps = None
+            if op[0] == "sf" and not op[1].startswith("/"):
+                comps = py_norm(op[1])
+            elif op[0] == "sc" and isinstance(py_key(op[1]), tuple) and py_key(op[1]):
+                comps = py_chunk_rel(flat, py_key(op[1]), op[2])
+            for k in range(1, len(comps or ())):
+                nm = "/".join(comps[:k])
+                if nm not in pref and len(pref) < 6:
+                    pref.append(nm)
+        for nm in pref:
+            if (False, nm, None) not in seen:
+                seen.add((False, nm, None))
+                reads.append(["ff", nm])
+                reads.append(["ex", nm])
         cross = []
         for c2 in CONFIGS:
             a2 = FileAccessor(base, flat=c2[0], gzip=c2[1], compresslevel=c2[2])
@@ -610,6 +628,16 @@ def file_accessor_part(R, nseq):
                     R.disagree("re-open under another config vs model", {**case, "reader": list(c2), "read": j["reads"][idx][:2]},
                                _short(io_), _short(mo))
                     break
+            # file_exists(name) says whether fetch_file(name) succeeds (trees without foreign files)
+            if not j["dirty"]:
+                for idx in range(len(res) - 1):
+                    r0, r1 = j["reads"][idx], j["reads"][idx + 1]
+                    if r0[0] == "ff" and r1[0] == "ex" and r0[1] == r1[1] and res[idx + 1][0] == "ok" \
+                            and (res[idx][0] == "ok") != bool(res[idx + 1][1]):
+                        R.violation("file_exists(name) disagrees with whether fetch_file(name) succeeds",
+                                    {**case, "reader": list(c2), "name": r0[1]},
+                                    {"fetch_file": _short(res[idx]), "file_exists": res[idx + 1]})
+                        break
             if guarded and not j["cfg2"]:
                 base_res = [apply for apply in j["cross"] if apply[0] == (flat, gz, lvl)][0][1]
                 for idx, (a1, a2) in enumerate(zip(base_res, res)):
@@ -787,9 +815,17 @@ def dispatch_part(R, n):
     rng = R.rng
     jobs = []
     variants = info_variants()
-    for i in range(n):
+    # the last cases: directory names with '+' / ' ' (literal characters of a URL path: '+' is NOT a space
+    # there), addressed by file:// URLs, raw and percent-encoded - the same directory as the plain pathname
+    plus_names = ["t1+t2", "a+b c", "x y+z", "p+"]
+    nplus = 12 if n <= 400 else 96
+    for i in range(n + nplus):
+        plus = i >= n
         sb, base = make_sandbox(R, f"d{i}", True)
-        kind, data = variants[i % len(variants)] if i < 2 * len(variants) else rng.choice(variants)
+        if plus:
+            base = os.path.join(os.path.dirname(base), plus_names[i % len(plus_names)])
+            os.makedirs(base)
+        kind, data = variants[i % len(variants)] if i < 2 * len(variants) or plus else rng.choice(variants)
         as_gz = data is not None and rng.random() < 0.15
         if data is not None:
             if as_gz:
@@ -798,9 +834,12 @@ def dispatch_part(R, n):
             else:
                 with open(os.path.join(base, "info"), "wb") as f:
                     f.write(data)
-        r = rng.random()
-        target = base if rng.random() < 0.85 else os.path.join(sb, "w", "missing", "ds")
-        if r < 0.3:
+        r = rng.random() if not plus else 2.0
+        target = base if plus or rng.random() < 0.85 else os.path.join(sb, "w", "missing", "ds")
+        if plus:
+            url = ["file://" + target, "file://" + urllib.parse.quote(target),
+                   "precomputed://file://" + urllib.parse.quote(target)][(i - n) // len(plus_names) % 3]
+        elif r < 0.3:
             url = target
         elif r < 0.4:
             url = target + "/"
@@ -845,7 +884,7 @@ def dispatch_part(R, n):
         pn = run_impl(lambda: accessor.convert_file_url_to_pathname(url))
         if pn == ["Crash", "URLError"]:
             pn = ["URLError"]
-        jobs.append(dict(sb=sb, base=base, url=url, opts=opts, res=res, pn=pn, kind=kind, as_gz=as_gz, at_base=(pn[0] == "ok" and isinstance(pn[1], str) and os.path.normpath(pn[1] or ".") == base),
+        jobs.append(dict(plus=plus, target=target, sb=sb, base=base, url=url, opts=opts, res=res, pn=pn, kind=kind, as_gz=as_gz, at_base=(pn[0] == "ok" and isinstance(pn[1], str) and os.path.normpath(pn[1] or ".") == base),
                          data=data, snap0=snap0, snap1=snapshot(sb)))
     reqs = []
     for j in jobs:
@@ -899,6 +938,16 @@ def dispatch_part(R, n):
             dd = compare_tree(mtree, j["snap1"], j["sb"])
             if dd:
                 R.disagree("get_accessor_for_url tree vs model", case, [str(x)[:160] for x in dd[:3]], "model")
+        # oracle: a file:// URL (raw or percent-encoded) and the plain pathname address the same directory
+        if j["plus"]:
+            R.count("dispatch:plus-in-path")
+            got_base = None
+            if j["res"][0] == "ok":
+                got_base = j["res"][1][1][0] if j["res"][1][0] == "file" else j["res"][1][1]
+            if j["pn"] != ["ok", j["target"]] or (j["res"][0] == "ok" and got_base != b(j["target"])):
+                R.violation("a file:// URL and the plain pathname of the same directory address different "
+                            "directories", case, {"pathname": j["pn"], "accessor_base": got_base,
+                                                  "directory": j["target"].replace(j["sb"], "<sb>")})
         # oracle: sharded accessor iff forced or the info declares sharding for all scales
         if j["res"][0] == "ok" and j["data"] is not None and not j["as_gz"] and j["at_base"]:
             declared = info_declares_sharding(j["data"])
